@@ -72,11 +72,14 @@ structure PInv (cfg : Cfg) (c : Core) (th : Th) : Prop where
 
 def pcC (cfg : Cfg) (c : Core) (th : Th) : Prop :=
   match th.pc with
+  | .r60 n => th.cur = some (.read n)
   | .r62 _ cpos => cpos = c.cseq
   | .r63c _ cpos k j acc => cpos = c.cseq ∧ cpos + k ≤ c.pseq ∧ j ≤ k ∧ acc.reverse = segment cfg.src cpos j
   | .r64 _ cpos acc => cpos = c.cseq ∧ cpos + acc.length ≤ c.pseq ∧ acc.reverse = segment cfg.src cpos acc.length
   | .r65 _ cpos acc | .r66 _ cpos acc | .r67 _ cpos acc =>
     cpos + acc.length ≤ c.pseq ∧ acc.reverse = segment cfg.src cpos acc.length
+  | .r73 _ cpos | .r74 _ cpos | .r75 _ cpos | .r76 _ cpos | .r77 _ cpos | .r77w _ cpos | .r78 _ cpos => cpos = c.cseq
+  | .r79 _ => c.cseq < c.pseq
   | .p81 _ _ cpos | .p82 _ _ cpos | .p83 _ _ cpos | .p84 _ _ cpos | .p85 _ _ cpos | .p86 _ _ cpos
   | .p86w _ _ cpos | .p87 _ _ cpos => cpos = c.cseq
   | .p88 w n cpos ppos => cpos = c.cseq ∧ ppos ≤ c.pseq ∧ mustWait w n cpos ppos = false
@@ -128,7 +131,8 @@ theorem CInv_stable (cfg : Cfg) (c c' : Core) (th : Th) (h : CInv cfg c th)
       | exact h1
       | (obtain ⟨a, b, c, d⟩ := h1; exact ⟨a, Nat.le_trans b hp, c, d⟩)
       | (obtain ⟨a, b, c⟩ := h1; exact ⟨a, Nat.le_trans b hp, c⟩)
-      | (obtain ⟨a, b⟩ := h1; exact ⟨Nat.le_trans a hp, b⟩))
+      | (obtain ⟨a, b⟩ := h1; exact ⟨Nat.le_trans a hp, b⟩)
+      | exact Nat.lt_of_lt_of_le h1 hp)
   · unfold viewOK at h2 ⊢
     split at h2
     all_goals (first
@@ -421,12 +425,12 @@ theorem acc_len (src : Nat → UInt8) (cpos j : Nat) (acc : List UInt8) (ha : ac
   simpa [segment_length] using this
 
 theorem cInv_startCall (cfg : Cfg) (base : Nat) (c : Core) (th : Th) (call : Call) (hg : Glob cfg base c)
-    (hi : CInv cfg c th) (ha : Tid.c.allowed call = true) : CInv cfg c (startCall cfg th call) := by
+    (hi : CInv cfg c th) (hcur : th.cur = some call) (ha : Tid.c.allowed call = true) : CInv cfg c (startCall cfg th call) := by
   obtain ⟨hpc, hv, hpd⟩ := hi
   have hnil : ([] : List UInt8) = segment cfg.src c.cseq ([] : List UInt8).length ∧ c.cseq + ([] : List UInt8).length ≤ c.pseq :=
     ⟨by simp [segment_zero], by simpa using hg.cp⟩
   cases call <;> simp only [startCall, enterWfs, wfsErr, Th.goto, Th.ret]
-  case read n => exact ⟨trivial, trivial, hnil⟩
+  case read n => exact ⟨hcur, trivial, hnil⟩
   case peek n => split <;> exact ⟨trivial, trivial, hnil⟩
   case rwait n => split <;> exact ⟨trivial, trivial, hnil⟩
   case use =>
@@ -467,7 +471,7 @@ theorem cons_frame (cfg : Cfg) (base : Nat) (sh sh' : Sh) (th th' : Th)
     | cons call rest =>
       simp only [Option.some.injEq, Prod.mk.injEq] at hs
       obtain ⟨rfl, rfl⟩ := hs
-      exact cInv_startCall cfg base _ _ call hg ⟨trivial, hv, hpd⟩ (hp call (List.mem_cons_self ..))
+      exact cInv_startCall cfg base _ _ call hg ⟨trivial, hv, hpd⟩ rfl (hp call (List.mem_cons_self ..))
   case l21 cpos =>
     simp only [tstep, Bool.false_eq_true, ↓reduceIte, hcr] at hs
     repeat' split at hs
@@ -493,7 +497,23 @@ theorem cons_frame (cfg : Cfg) (base : Nat) (sh sh' : Sh) (th th' : Th)
         · have := Nat.min_le_right n (sh.pseq - cpos); omega
         · have := Nat.min_le_right n (cfg.size - cfg.idx cpos); omega
       · simp only [Option.some.injEq, Prod.mk.injEq] at hs; obtain ⟨rfl, rfl⟩ := hs
-        exact ⟨trivial, hv, hpd⟩
+        exact ⟨hpc, hv, hpd⟩
+  case r74 n cpos =>
+    simp only [pcC] at hpc
+    tstep_norm
+    rcases hs with ⟨h1, rfl, rfl⟩ | ⟨h1, rfl, rfl⟩
+    · exact ⟨hpc, hv, hpd⟩
+    · refine ⟨?_, hv, hpd⟩
+      show sh.cseq < sh.pseq
+      omega
+  case r78 n cpos =>
+    simp only [pcC] at hpc
+    tstep_norm
+    rcases hs with ⟨h1, rfl, rfl⟩ | ⟨h1, rfl, rfl⟩
+    · exact ⟨hpc, hv, hpd⟩
+    · refine ⟨?_, hv, hpd⟩
+      show sh.cseq < sh.pseq
+      omega
   case r63c b cpos k j acc =>
     simp only [pcC] at hpc
     obtain ⟨e1, e2, e3, e4⟩ := hpc
